@@ -57,7 +57,7 @@ FRAGMENT_OPCODES = ["LoadConstant", "GetLocal", "GetUpvalue", "GetLastResult", "
                     "Add", "Subtract", "Multiply", "Divide", "Power", "LessThan", "GreaterThan", "LessOrEqual",
                     "GreatorOrEqual", "Equal", "NotEqual", "LogicalAnd", "LogicalOr", "JumpIfFalse", "Jump", "Call",
                     "FFICallFunction", "FFICallProcedure", "CallCallable", "JoinString", "BuildStructInstance",
-                    "AccessStructField", "BuildList", "Return"]   # ConvertTo: units are not modelled
+                    "AccessStructField", "BuildList", "Return", "PrintString"]   # ConvertTo / ApplyPrefix / SetUnitConstant: not modelled
 FUEL_REF = 600
 FUEL_MACH = 20000
 
@@ -598,6 +598,14 @@ class Gen:
         if self.cost > self.STMT_LIMIT // 2:
             return False
         c = r.random()
+        # (no Scalar-typed expressions: a zero literal makes the inferred type polymorphic, `forall A: Dim. A`)
+        tname = {B: "Bool", T: "String", tlist(B): "List<Bool>"}.get(t)
+        if tname and r.random() < 0.25:
+            # type(e): the expression is NOT evaluated, the inferred type is printed (PrintString)
+            self.src.append("type(%s)" % e)
+            self.coq.append("SType %s" % cstr("= " + tname))
+            self.features["type_proc"] += 1
+            return True
         if c < 0.7:
             self.src.append("print(%s)" % e)
             self.coq.append('SProc "print" [%s]' % ec)
@@ -848,6 +856,69 @@ def error_cases(rng):
           'SFn "h" ["x"] [] (EBin BDiv (EIdent "x") (%s))' % z, 'SExpr (ECall "w" [EIdent "h"; %s])' % sc(k)]),
     ]
     return cases
+
+
+def unit_cases(rng):
+    """programs with dimension / base unit definitions, quantities with units, type(…).
+    All displayed results are dimensionless, so the integer instance of the model (unit = 1) is
+    a faithful model of the magnitudes (base units only: no conversion factors)."""
+    D = "dimension Scalar = 1"
+    def sc(n):
+        return "EScalar %d%%Z" % n
+    def q(n, u):
+        return "(%d %s)" % (n, u), "EBin BMul (%s) (EUnit %s)" % (sc(n), cstr(u))
+    out = []
+    for _ in range(6):
+        k1, k2, k3, k4 = (rng.randrange(1, 9) for _ in range(4))
+        a, ac = q(k1, "m")
+        b, bc = q(k2, "s")
+        c3, c3c = q(k3, "m")
+        head = [("dimension L", "SDim"), ("dimension T", "SDim"),
+                ("unit m: L", 'SUnitBase "m"'), ("unit s: T", 'SUnitBase "s"'),
+                ("let a = %s" % a, 'SLet "a" (%s)' % ac), ("let b = %s" % b, 'SLet "b" (%s)' % bc)]
+        pool = [
+            ("type(a)", 'SType "= L"'),
+            ("type(((a * a) / b))", 'SType "= L² / T"'),
+            ("type([a, a])", 'SType "= List<L>"'),
+            ("fn sq(x: L) -> L^2 = (x * x)", 'SFn "sq" ["x"] [] (EBin BMul (EIdent "x") (EIdent "x"))'),
+            ("(sq(a) / (m * m))", 'SExpr (EBin BDiv (ECall "sq" [EIdent "a"]) (EBin BMul (EUnit "m") (EUnit "m")))'),
+            ("(((a + %s) / m) * (b / s))" % c3,
+             'SExpr (EBin BMul (EBin BDiv (EBin BAdd (EIdent "a") (%s)) (EUnit "m")) (EBin BDiv (EIdent "b") (EUnit "s")))' % c3c),
+            ("let a = (a * %d)" % k4, 'SLet "a" (EBin BMul (EIdent "a") (%s))' % sc(k4)),
+            ("((a / m) - 1)", 'SExpr (EBin BSub (EBin BDiv (EIdent "a") (EUnit "m")) (EScalar 1%Z))'),
+            ("fn g(x: L) -> L = (y + x) where y = (x * 2)",
+             'SFn "g" ["x"] [("y", EBin BMul (EIdent "x") (EScalar 2%Z))] (EBin BAdd (EIdent "y") (EIdent "x"))'),
+            ("(g(a) / m)", 'SExpr (EBin BDiv (ECall "g" [EIdent "a"]) (EUnit "m"))'),
+            ("(if (a < %s) then 1 else 0)" % c3, 'SExpr (ECond (EBin BLt (EIdent "a") (%s)) (EScalar 1%%Z) (EScalar 0%%Z))' % c3c),
+            ("(a == a)", 'SExpr (EBin BEq (EIdent "a") (EIdent "a"))'),
+            ("print((b / s))", 'SProc "print" [EBin BDiv (EIdent "b") (EUnit "s")]'),
+            ("unit ft: L", 'SUnitBase "ft"'),
+        ]
+        body, have = [], set()
+        for st in pool:
+            if rng.random() < 0.75:
+                src = st[0]
+                if ("sq(" in src and "fn sq" not in src and "sq" not in have) or \
+                   ("g(a)" in src and "g" not in have) or \
+                   ("ans" in src and not any(b0[1].startswith("SExpr") for b0 in body)):
+                    continue
+                if src.startswith("fn sq"):
+                    have.add("sq")
+                if src.startswith("fn g"):
+                    have.add("g")
+                body.append(st)
+        body.append(("((a / m) + (b / s))", 'SExpr (EBin BAdd (EBin BDiv (EIdent "a") (EUnit "m")) (EBin BDiv (EIdent "b") (EUnit "s")))'))
+        body.append(("(ans + 1)", 'SExpr (EBin BAdd (EIdent "ans") (EScalar 1%Z))'))
+        stmts = head + body
+        src = [D] + [x for x, _ in stmts]
+        coq = [y for _, y in stmts]
+        if rng.random() < 0.5:
+            sess = make_session(rng, src, coq)
+            if sess:
+                out.append(sess)
+                continue
+        out.append((src, coq))
+    return out
 
 
 def oversize_cases():
@@ -1123,6 +1194,9 @@ def run(chk):
     for c in error_cases(chk.rng) + error_cases(chk.rng):
         cases.append(c)
         kinds.append("error-stream")
+    for c in unit_cases(chk.rng):
+        cases.append(c)
+        kinds.append("unit-stream")
     results = []
     B = 4000
     for i in range(0, len(cases), B):
